@@ -1,5 +1,8 @@
 (* C11 — replacement rewrites exactly the first n matches and nothing else. *)
 From FR Require Import Base Utf8 Api ApiProofs.
+From FR Require Import State Utf8Facts Chars Ast Analyze Sem SemSound Vm Compile Param ArrowA CompileCorrect KeepOut EndToEnd ApiVm.
+From Coq Require Import NArith Lia.
+
 
 Section C11.
 Variable tx : text.
@@ -40,6 +43,25 @@ Check C11_replacen : forall tx search, SearchOK tx search -> (forall p f, search
 Check C11_paths_agree : forall tx search rep limit,
   try_replacen tx rep (cnext tx search) limit = try_replacen tx rep (mnext tx search) limit.
 
+
+(* ---- for the COMPILED search (Proofs/ApiVm.v): SearchOK is proved, not assumed ---- *)
+Theorem C11_vm_replacen : forall cs bs e p, VmScope cs bs e p ->
+  forall ng max_st limit fuelv,
+  (forall pos f, vsearch cs p ng max_st limit fuelv pos f <> SErr EFuel) ->
+  forall rep lim,
+  try_replacen (concat cs) rep (mnext (concat cs) (vsearch cs p ng max_st limit fuelv)) lim =
+  match vm_matches cs p ng max_st limit fuelv with
+  | [] => RBorrowed
+  | _ => rspec (concat cs) rep lim 0 0 (vm_matches cs p ng max_st limit fuelv) []
+  end /\
+  try_replacen (concat cs) rep (cnext (concat cs) (vsearch cs p ng max_st limit fuelv)) lim = try_replacen (concat cs) rep (mnext (concat cs) (vsearch cs p ng max_st limit fuelv)) lim /\
+  try_replacen (concat cs) rep (mnext (concat cs) (vsearch cs p ng max_st limit fuelv)) lim <> RPanicR.
+Proof.
+  intros cs bs e p (W & Hl & Hc & Ho & Hr & Hk) ng max_st limit fuelv Hnf rep lim. split; [eapply vm_replacen; eauto|]. split; [apply try_replacen_paths_agree|].
+  eapply vm_replace_no_panic; eauto.
+Qed.
+
 Print Assumptions C11_replacen.
 Print Assumptions C11_paths_agree.
 Print Assumptions C11_no_panic.
+Print Assumptions C11_vm_replacen.
